@@ -52,7 +52,7 @@ theorem C02_failed_dependency_restores_env (rec : Rec) (cfg : Cfg) (fwd : Bool) 
       rec fwd (depth + 1) just (lineVro vro tags kl) n
         (if fwd then ver else none) (if fwd then vexpr else none) s = .raised s') :
     acts rec cfg fwd depth false vro d (.dep n opt just ver vexpr tags kl :: rest) s =
-      acts rec cfg fwd depth false vro d rest { s' with env := s.env, aliases := s.aliases, unaliased := s.unaliased } := by
+      acts rec cfg fwd depth false vro d rest (⟨s.env, s.aliases, s.unaliased, s'.already, s'.cache⟩ : St) := by
   have hcond : (fwd && !opt) = false := by rcases hopt with h | h <;> simp [h]
   unfold lineVro at hfail
   rcases hfail with h | h <;> simp [acts, hgo, h, hcond]
@@ -63,7 +63,7 @@ theorem C02_failed_required_dependency_raises (rec : Rec) (cfg : Cfg) (depth : N
     (rest : List Act) (s s' : St) (hgo : cfg.maxDepth ≠ some depth)
     (hfail : rec true (depth + 1) just (lineVro vro tags kl) n ver vexpr s = .notFound s' ∨
       rec true (depth + 1) just (lineVro vro tags kl) n ver vexpr s = .raised s') :
-    acts rec cfg true depth false vro d (.dep n false just ver vexpr tags kl :: rest) s = .raised { s' with env := s.env, aliases := s.aliases, unaliased := s.unaliased } := by
+    acts rec cfg true depth false vro d (.dep n false just ver vexpr tags kl :: rest) s = .raised (⟨s.env, s.aliases, s.unaliased, s'.already, s'.cache⟩ : St) := by
   unfold lineVro at hfail
   rcases hfail with h | h <;> simp [acts, hgo, h]
 
